@@ -148,6 +148,10 @@ class Tr:
         raise Unsupported(f'{self.where}: condition not in table: {t!r}')
 
     # ---------------- statements ----------------
+    def parts(self, stmts) -> list[str]:
+        """top-level statements of a function, each as its own term (emit_function names every suffix tail<i>)"""
+        return [p for p in (self.stmt(s) for s in stmts) if p is not None]
+
     def block(self, stmts) -> str:
         parts = [self.stmt(s) for s in stmts]
         parts = [p for p in parts if p is not None]
@@ -289,7 +293,16 @@ def emit_function(mod: str, comment: str, fields: dict[str, tuple[str, str]], rt
     init = 'env0'
     for a in args:
         init = f'(set_{a} {a} {init})'
-    return (f'(* {sanitize(comment)} *)\nModule {mod}.\n' + env_record('env', fields) +
-            f'Definition body {ctx_params} : stmt env {rtype} :=\n {body}.\n'
+    if isinstance(body, list):
+        # one definition per suffix of the statement list: tail<i> = statements i.. ; body = tail0
+        n = len(body)
+        defs = [f'Definition tail{n} {ctx_params} : stmt env {rtype} := s_skip.\n']
+        for i in range(n - 1, -1, -1):
+            defs.append(f'Definition stmt{i} {ctx_params} : stmt env {rtype} :=\n {body[i]}.\n'
+                        f'Definition tail{i} {ctx_params} : stmt env {rtype} := s_seq (stmt{i} {ctx_names}) (tail{i + 1} {ctx_names}).\n')
+        body_def = ''.join(defs) + f'Definition body {ctx_params} : stmt env {rtype} := tail0 {ctx_names}.\n'
+    else:
+        body_def = f'Definition body {ctx_params} : stmt env {rtype} :=\n {body}.\n'
+    return (f'(* {sanitize(comment)} *)\nModule {mod}.\n' + env_record('env', fields) + body_def +
             f'Definition run {ctx_params} {arg_binders} : prog {rtype} := run_body (body {ctx_names}) {init} {rdefault}.\n'
             f'End {mod}.\n\n')
